@@ -1106,6 +1106,43 @@ example : transBetwSpec 3 (adjMat 3 [(0, 1), (1, 2)]) 1 = 1 := by decide +kernel
 example : retBetw 3 (adjMat 3 [(0, 1), (1, 2)]) 2 = 0 ∧ transBetw 3 (adjMat 3 [(0, 1), (1, 2)]) 1 = 1 := by
   decide +kernel
 
+/-! ## towards "`rndF32` is IEEE rounding": the integer rounding step
+
+`rndF32 q = roundEven (|q| / 2^e) · 2^e` with `e = max(⌊log₂|q|⌋ - 23, -149)`.  Proved here: the
+integer step is round-to-nearest (error ≤ 1/2), fixes integers and is monotone.  Still open:
+`floorLog2` is the floor of the binary logarithm, and monotonicity across exponent boundaries. -/
+
+theorem roundEven_nearest (m : Rat) :
+    ((roundEven m : Int) : Rat) - m ≤ 1 / 2 ∧ m - ((roundEven m : Int) : Rat) ≤ 1 / 2 := by
+  have h1 := Rat.floor_le m
+  have h2 : m < (m.floor : Rat) + 1 := by
+    have := Rat.lt_floor_add_one m; push_cast at this; exact this
+  simp only [roundEven]
+  split
+  · constructor <;> linarith
+  · split
+    · push_cast; constructor <;> linarith
+    · split
+      · constructor <;> linarith
+      · push_cast; constructor <;> linarith
+
+theorem roundEven_int (z : Int) : roundEven (z : Rat) = z := by
+  simp [roundEven, Rat.floor_intCast]
+
+theorem roundEven_mono (a b : Rat) (h : a ≤ b) : roundEven a ≤ roundEven b := by
+  have hf : a.floor ≤ b.floor := by
+    rw [Rat.le_floor_iff]; exact le_trans (Rat.floor_le a) h
+  rcases lt_or_eq_of_le hf with hlt | heq
+  · have h1 : roundEven a ≤ a.floor + 1 := by simp only [roundEven]; split_ifs <;> omega
+    have h2 : b.floor ≤ roundEven b := by simp only [roundEven]; split_ifs <;> omega
+    omega
+  · have hr : a - (b.floor : Rat) ≤ b - (b.floor : Rat) := by linarith
+    simp only [roundEven, heq]
+    split_ifs <;> first | omega | (exfalso; linarith)
+
+example : roundEven (5 / 2) = 2 ∧ roundEven (7 / 2) = 4 ∧ roundEven (-5 / 2) = -2 := by decide +kernel
+example : rndF32 (1 / 3) = 11184811 / 33554432 := by decide +kernel
+
 /-! ## loop bounds of the Cython kernels and index arrays of the betweenness methods,
 regenerated from `numerics.pyx` / `visibility_graph.py` (`translate/arith_C14.json`) -/
 
